@@ -122,6 +122,9 @@ type ObjectStatusReporter struct {
 	// taskManager makes it possible to cancel scheduled tasks.
 	taskManager *taskManager
 
+	// fatalErrorOnce ensures the terminal error event is sent at most once.
+	fatalErrorOnce sync.Once
+
 	started bool
 	stopped bool
 }
@@ -714,11 +717,15 @@ func (w *ObjectStatusReporter) handleFatalError(eventCh chan<- event.Event, err 
 	if errors.Is(err, context.Canceled) || errors.Is(err, context.DeadlineExceeded) {
 		return
 	}
-	eventCh <- event.Event{
-		Type:  event.ErrorEvent,
-		Error: err,
-	}
-	w.Stop()
+	// Several informers may fail concurrently: only the first fatal error is
+	// reported, so that at most one error event is sent before the stop.
+	w.fatalErrorOnce.Do(func() {
+		eventCh <- event.Event{
+			Type:  event.ErrorEvent,
+			Error: err,
+		}
+		w.Stop()
+	})
 }
 
 // watchErrorHandler logs errors and cancels the informer for this GroupKind
